@@ -407,7 +407,7 @@ def check(ctx):
     # 2. TLC: the experiment plan from the contract's formulas
     runner = Runner(ctx, drv)
     batches = 1 if quick else 3
-    misses, base_of, plan_sizes = [], {}, []
+    misses, base_of, plan_sizes, unjudged = [], {}, [], []
     for b in range(batches):
         ptext, bmap = plan_cfg(ctx.tier, rng)
         base_of.update(bmap)
@@ -427,8 +427,9 @@ def check(ctx):
             todo = [case_of(rec) for rec, laws, _ in rs if laws is None]        # too noisy: run again
             misses += [(rec, laws) for rec, laws, _ in rs if laws]
             if todo and attempt >= 3:
-                raise NoVerdict("machine too busy: scheduling delays above %d ms (or stalled / never started helpers) in 3 attempts for %d scripts"
-                                % (JIT_LIMIT, len(todo)))
+                # what could not be observed in three attempts is set aside: what the other scripts showed is judged first
+                unjudged += todo
+                break
     # 3b. the entry point users call: testscript.Run with a real *testing.T whose own deadline (-test.timeout 10m, go test's
     # default) is far later than Params.Deadline.  Two deadline distances, every class of the plan, same validation.
     via_ds = sorted({c["D"] for c in cases})[1:4:2]
@@ -439,7 +440,8 @@ def check(ctx):
         todo = [case_of(rec) for rec, laws, _ in rs if laws is None]
         misses += [(rec, laws) for rec, laws, _ in rs if laws]
         if todo and attempt >= 3:
-            raise NoVerdict("machine too busy during the testscript.Run stage: %d scripts not judged in 3 attempts" % len(todo))
+            unjudged += todo
+            break
     log("C17 %d scripts in %d RunT calls; classes %s; %d observations with a failed law; %d runs not judged (noisy)"
         % (runner.scripts, runner.runt_calls, json.dumps(runner.classes, sort_keys=True), len(misses), runner.noisy))
 
@@ -450,6 +452,9 @@ def check(ctx):
     for t in unreproduced:
         log("UNREPRODUCED observation (seen once, not again in %d re-runs, so not an alarm - but a slow machine does not explain it): %s %s helper log: %s"
             % (t["reruns"], t["laws"], json.dumps(t["case"], sort_keys=True), t["first_observation"].get("clog")))
+    if unjudged and not violations:
+        raise NoVerdict("machine too busy: scheduling delays above %d ms (or stalled / never started helpers) in 3 attempts for %d scripts, e.g. %s"
+                        % (JIT_LIMIT, len(unjudged), json.dumps(unjudged[0], sort_keys=True)))
     need = ["early", "blocked", "blocked-killed", "boundary"]
     if any(runner.classes.get(c, 0) == 0 for c in need) and not violations:
         raise NoVerdict("no observation in class(es) %s" % [c for c in need if runner.classes.get(c, 0) == 0])
